@@ -13,15 +13,17 @@ name=$(basename $demo .rs)
 {
 echo "== confirm $id at /repo $(git -C /repo rev-parse --short HEAD) on $(date -u +%FT%TZ)"
 cp /verif/seeded/$id/demo/$demo $wt/$crate/$tdir/$name.rs
+mkdir -p $wt/SEEDED && cp -r /verif/seeded/$id/demo $wt/SEEDED/demo
 cd $wt
 echo "-- demonstration on the ORIGINAL tree: cargo test -p $crate --test $name"
-cargo test -p $crate --test $name --offline -j 6 -- --test-threads 1 2>&1 | grep -E "^test |test result|error(\[|:)" | head -40
+if [ "$tdir" = examples ]; then run="cargo run -p $crate --example $name --offline -j 6"; else run="cargo test -p $crate --test $name --offline -j 6 -- --test-threads 1"; fi
+$run 2>&1 | grep -vE "Compiling|Finished|Running|^warning|^ *\||^ *=|^ *-->|^$" | tail -25
 orig=${PIPESTATUS[0]}
 git apply /verif/seeded/$id/patch.diff || { echo "patch does not apply"; }
 echo "-- demonstration WITH the change"
-cargo test -p $crate --test $name --offline -j 6 -- --test-threads 1 2>&1 | grep -E "^test |test result|error(\[|:)" | head -40
+$run 2>&1 | grep -vE "Compiling|Finished|Running|^warning|^ *\||^ *=|^ *-->|^$" | tail -25
 chg=${PIPESTATUS[0]}
-rm $wt/$crate/$tdir/$name.rs
+rm $wt/$crate/$tdir/$name.rs; rm -rf $wt/SEEDED
 echo "-- unedited workspace test suite WITH the change: cargo test --workspace --no-fail-fast --offline"
 cargo test --workspace --no-fail-fast --offline -j 6 -- --test-threads 6 2>&1 | grep -E "test result|FAILED|failed|panicked" | head -60
 suite=${PIPESTATUS[0]}
